@@ -997,6 +997,42 @@ fn m_redeemer_extra(r: &mut Rng, c: &MutCtx, w: &World) -> Option<World> {
     set_sdh(c.f, &mut n, c.sdh_ok);
     Some(n)
 }
+/// a second Plutus purpose (a token minted under the transaction's own witness-set Plutus script used as
+/// policy) whose redeemer is missing, while the list carries a second entry for the existing spend
+/// pointer: as many redeemers as purposes, but one purpose is not covered
+fn m_redeemer_duplicate_instead_of_new_purpose(_r: &mut Rng, c: &MutCtx, w: &World) -> Option<World> {
+    let red = redeemers(&w.tx)?;
+    if matches!(red, Node::Map(..) | Node::MapIndef(..)) {
+        return None;
+    }
+    let mut xs = elems(&red)?.clone();
+    let first = xs.first()?.clone();
+    let wn = wits_node(&w.tx);
+    let (lang, script) = [(3u64, 1u8), (6, 2), (7, 3)].iter().find_map(|(k, l)| map_get(&wn, *k).and_then(elems).and_then(|l2| l2.first().and_then(node_bytes)).map(|b| (*l, b)))?;
+    if !mint_get(&w.tx).is_empty() {
+        return None;
+    }
+    let pol = script_hash(lang, &script);
+    let mut m = mint_get(&w.tx);
+    mint_put(&mut m, &pol, b"pv", 1);
+    let mut n = w.clone();
+    n.tx = mint_set(&w.tx, &m);
+    let addr = parse_output(outputs(&w.tx).first()?)?.addr;
+    let mut outs = outputs(&n.tx);
+    outs.push(mk_output(&addr, 5_000_000, &vec![(pol, vec![(b"pv".to_vec(), 1)])], legacy_outputs(w)));
+    n.tx = set_outputs(&n.tx, outs);
+    // the second entry asks for no execution units, so the budget rule is not what rejects the mutant
+    let mut dup = first;
+    if let Node::Array(f, _) | Node::ArrayIndef(f) = &mut dup {
+        if let Some(last) = f.last_mut() {
+            *last = Node::arr(vec![Node::u(0), Node::u(0)]);
+        }
+    }
+    xs.push(dup);
+    n.tx = wits_set(&n.tx, 5, Some(list_like(Some(&red), xs)));
+    set_sdh(c.f, &mut n, c.sdh_ok);
+    Some(n)
+}
 fn m_aux_hash(r: &mut Rng, _c: &MutCtx, w: &World) -> Option<World> {
     let mut n = w.clone();
     match (body_get(&w.tx, 7).and_then(|x| node_bytes(&x)), aux(&w.tx)) {
@@ -1074,7 +1110,7 @@ fn m_language(_r: &mut Rng, c: &MutCtx, w: &World) -> Option<World> {
     Some(n)
 }
 
-const MUTATORS: [(&str, &str, MutFn); 34] = [
+const MUTATORS: [(&str, &str, MutFn); 35] = [
     ("validity-interval", "ttl==slot(upper bound exclusive in the ledger specification)", m_ttl_equals_slot),
     ("inputs-nonempty", "inputs=[]", m_inputs_empty),
     ("inputs-in-utxo", "utxo-entry-of-an-input-removed", m_input_missing),
@@ -1104,6 +1140,7 @@ const MUTATORS: [(&str, &str, MutFn); 34] = [
     ("datum-witness", "unneeded-datum-added", m_datum_extra),
     ("redeemer-coverage", "redeemer-removed", m_redeemer_dropped),
     ("redeemer-coverage", "unneeded-redeemer-added", m_redeemer_extra),
+    ("redeemer-coverage", "new-plutus-mint-purpose-uncovered-while-a-pointer-is-listed-twice", m_redeemer_duplicate_instead_of_new_purpose),
     ("aux-data-hash", "hash-flipped/removed/added-or-unhashed-aux-data", m_aux_hash),
     ("script-integrity-hash", "hash-flipped/removed/added-or-redeemer-data-changed", m_sdh),
     ("language-availability", "parameters-without-cost-model-for-a-used-language", m_language),
